@@ -332,6 +332,7 @@ func rconRunTCP(s rconBeh) (obs []rconObs, reqid int32, err error) {
 	wg.Add(1)
 	go func() {
 		defer wg.Done()
+		defer guard("c16")
 		if s.Mode == "advs" {
 			c, e := ln.Accept()
 			if e != nil {
@@ -416,6 +417,7 @@ func rconRunTCP(s rconBeh) (obs []rconObs, reqid int32, err error) {
 	go func() {
 		defer wg.Done()
 		defer close(clientDone)
+		defer guard("c16")
 		if s.Mode == "advc" {
 			c, e := net.Dial("tcp", addr)
 			if e != nil {
@@ -1285,6 +1287,7 @@ func rconJudgeParallel(env *vk.Env, label, transport string, sessions []rconBeh,
 		wg.Add(1)
 		go func(p int) {
 			defer wg.Done()
+			defer guard("c16")
 			var mine []rconBeh
 			for i := p; i < len(sessions); i += parts {
 				mine = append(mine, sessions[i])
